@@ -130,6 +130,17 @@ def phase_a(item):
                 reps.setdefault((n, k, "quantile"), (logl, logw, kw))
                 if not kw["include_likelihood"]:
                     qs.append((kw["q"], cut))
+                # log-weights are only defined up to a constant: large common offsets (beyond the
+                # range of exp) must not change the quantile
+                for off in (((2000.0, -1.0e5) if mi % 2 == 0 else (-2000.0, 1.0e5))):
+                    try:
+                        with np.errstate(all="ignore"):
+                            cs = float(weighted_quantile(np.array(logl), kw["q"], log_weights=lw + off, values_sorted=True)[0])
+                    except Exception as e:
+                        errs.append((f"quantile-with-offset-weights-raises-{type(e).__name__}", f"{e} offset={off} logL={logl} logW={logw} {kw}"))
+                        continue
+                    if not (abs(cs - cut) <= 1e-9 * (1 + abs(cut))):
+                        errs.append(("weighted-quantile-changes-under-a-constant-offset-of-the-log-weights", f"{cs} vs {cut} offset={off} logL={logl} logW={logw} {kw}"))
                 if not (min(logl) - 1e-12 <= cut <= max(logl) + 1e-12):
                     errs.append(("weighted-quantile-outside-data-range", f"{cut} logL={logl} logW={logw} {kw}"))
                 ref = None
@@ -163,9 +174,10 @@ def equal_weight_checks(nmax):
             vals = np.array(logl) * 1.7 - 0.3
             for q in (0.1, 0.2, 0.5, 0.8, 0.9):
                 a = float(weighted_quantile(vals, q)[0])
-                for c in (0.0, -3.0, 500.0):
+                for c in (0.0, -3.0, 500.0, -2000.0, 1.0e5):
                     b = float(weighted_quantile(vals, q, log_weights=np.full(n, c))[0])
-                    if abs(a - b) > 1e-12 * (1 + abs(a)):
+                    # normalising log-weights of magnitude |c| costs eps*|c| of relative accuracy
+                    if abs(a - b) > (1e-12 + 8 * 2.0 ** -52 * abs(c)) * (1 + abs(a)):
                         errs.append(("equal-weights-differ-from-unweighted", f"{a} vs {b} values={vals} q={q} c={c}"))
                 ref = float(hdquantiles(vals, prob=[q])[0])
                 n_eval += 1
